@@ -18,6 +18,8 @@ type propSpec struct {
 // share one function; it runs once per analysis).
 var ruleGroups = map[string]func(*Ctx){
 	"I1": rulesIndex, "I2": rulesIndex, "I3": rulesIndex, "I5": rulesIndex,
+	"J1": rulesSize, "N1": rulesSize, "N2": rulesSize, "N3": rulesSize,
+	"A1": rulesAccess, "A2": rulesAccess, "A3": rulesAccess, "A4": rulesAccess, "T1": rulesAccess, "N4": rulesAccess,
 	"P1": rulesPersist, "E1": rulesPersist, "E2": rulesPersist, "I4": rulesPersist, "L1": rulesPersist,
 }
 
